@@ -108,7 +108,7 @@ func JSONWriteIRIProp(b *[]byte, n string, i LinkOrIRI) (notEmpty bool) {
 }
 
 func JSONWriteItemProp(b *[]byte, n string, i Item) (notEmpty bool) {
-	if i == nil {
+	if IsNil(i) {
 		return notEmpty
 	}
 	if im, ok := i.(json.Marshaler); ok {
@@ -155,6 +155,9 @@ func JSONWriteItemCollectionValue(b *[]byte, col ItemCollection, compact bool) (
 	}
 	if len(col) == 1 && compact {
 		it := col[0]
+		if IsNil(it) {
+			return false
+		}
 		im, ok := it.(json.Marshaler)
 		if !ok {
 			return false
@@ -177,6 +180,9 @@ func JSONWriteItemCollectionValue(b *[]byte, col ItemCollection, compact bool) (
 	JSONWrite(b, '[')
 	skipComma := true
 	for _, it := range col {
+		if IsNil(it) {
+			continue
+		}
 		im, ok := it.(json.Marshaler)
 		if !ok {
 			continue
